@@ -323,7 +323,9 @@ Inductive serr :=
 | EUnsupported       (* validateSupportedIdentityScopesInCertificate *)
 | EDenied            (* acl.PermissionDenied *)
 | EDatacenter        (* "SPIFFE ID in CSR from a different datacenter" *)
-| ETrustDomain.      (* "SPIFFE ID in CSR from a different trust domain" *)
+| ETrustDomain       (* "SPIFFE ID in CSR from a different trust domain" *)
+| ENotAgent          (* auto-config: "SPIFFE ID is not an Agent ID" *)
+| EWrongNode.        (* auto-config: "... is not for the correct node" *)
 
 Record ca_env := CaEnv {
   e_dc : string;          (* serverConf.Datacenter *)
@@ -594,6 +596,35 @@ Definition sign_request (e : ca_env) (az : authz) (c : csr) (s : store) : res se
       | Err x => Err x
       | Ok uris => Ok (provider_sign s uris c)
       end
+  end.
+
+(* The second entry point: AutoConfig.InitialConfiguration.  parseAutoConfigCSR (one URI, no
+   e-mail, the URI parses, it is an agent identity), jwtAuthorizer.Authorize (the agent name is the
+   node the JWT was validated for; partitions are all equal in the community edition), then
+   CAManager.SignCertificate directly - no ACL question, no supported-scope test and no datacenter
+   test on this path. *)
+Definition autoconfig_sign (e : ca_env) (node : string) (c : csr) (s : store) : res serr (cert * store) :=
+  match csr_uris c with
+  | [u] =>
+      if negb (csr_emails c =? 0) then Err EEmail else
+      match parse_cert_uri u with
+      | Err pe => Err (EParse pe)
+      | Ok (IdAgent host ap dc agent) =>
+          if negb (agent =? node)%string then Err EWrongNode else
+          match sign_uris e (csr_uris c) (IdAgent host ap dc agent) with
+          | Err x => Err x
+          | Ok uris => Ok (provider_sign s uris c)
+          end
+      | Ok _ => Err ENotAgent
+      end
+  | _ => Err EUriCount
+  end.
+
+(* SignCertificate reads the ClusterID from the stored CA configuration on every request *)
+Definition store_env (dc : string) (s : store) : option ca_env :=
+  match s_config s with
+  | Some g => Some (CaEnv dc (g_cluster g))
+  | None => None
   end.
 
 (* the URIs a reader finds in the issued certificate *)
